@@ -313,6 +313,16 @@ B("C17-b09", "missing file no longer refused", TDF, "        if not self.file_pa
 B("C17-b10", "copy returns the original", TDF, "        return Tdf(new_file_path)", "        return self", expect="copy-direction")
 B("C17-b11", "inverted existence test", TDF, "        if filePath.exists():\n            raise FileExistsError", "        if not filePath.exists():\n            raise FileExistsError", expect="exists-before-create")
 P("C17-p01", "exclusive creation", TDF, "with filePath.open(\"wb\") as f:", "with filePath.open(\"xb\") as f:")
+P("C17-p20", "copy by copyfileobj between an 'rb' and an 'xb' handle", TDF, "        shutil.copyfile(self.file_path, new_file_path)\n",
+  "        with open(self.file_path, \"rb\") as source, open(new_file_path, \"xb\") as target:\n            shutil.copyfileobj(source, target)\n")
+P("C17-p21", "copy by a chunk loop that leaves on a short chunk after writing it", TDF, "        shutil.copyfile(self.file_path, new_file_path)\n",
+  "        with self.file_path.open(\"rb\") as source, new_file_path.open(\"xb\") as target:\n            while True:\n                chunk = source.read(shutil.COPY_BUFSIZE)\n"
+  "                target.write(chunk)\n                if len(chunk) < shutil.COPY_BUFSIZE:\n                    break\n")
+B("C17-b20", "chunk loop leaves on a short chunk before writing it", TDF, "        shutil.copyfile(self.file_path, new_file_path)\n",
+  "        with self.file_path.open(\"rb\") as source, new_file_path.open(\"xb\") as target:\n            while True:\n                chunk = source.read(shutil.COPY_BUFSIZE)\n"
+  "                if len(chunk) < shutil.COPY_BUFSIZE:\n                    break\n                target.write(chunk)\n", expect="copy-direction")
+B("C17-b21", "copy through text-mode handles", TDF, "        shutil.copyfile(self.file_path, new_file_path)\n",
+  "        with self.file_path.open(\"r\") as source, new_file_path.open(\"x\") as target:\n            shutil.copyfileobj(source, target)\n", expect="copy-direction")
 
 # ------------------------------------------------------------------------------------------------ C18
 B("C18-b01", "membership is case-insensitive", D3, "return any(track.label == value for track in self._tracks)", "return any(track.label.lower() == value.lower() for track in self._tracks)", expect="contains-contract")
